@@ -246,7 +246,8 @@ def constructed(draw):
     permuted = canon(target) != before
     mode = draw(st.sampled_from(["explicit", "explicit", "default", "default_bound"]))
     case = {"kind": "constructed", "template": tpl, "target": target, "permuted": permuted,
-            "kw_reverse_template": draw(st.booleans()), "kw_reverse_target": draw(st.booleans())}
+            "kw_reverse_template": draw(st.booleans()), "kw_reverse_target": draw(st.booleans()),
+            "strings": draw(st.integers(0, 3)) == 0}
     if mode == "explicit":
         case["free"] = sorted(free + free_funcs)
     elif mode == "default_bound":
@@ -261,6 +262,10 @@ def constructed(draw):
         case["pre_match"] = {n: draw(small_target())}
     elif pm == 4:
         case["pre_match"] = {draw(st.sampled_from(FREE_POOL + BOUND_POOL)): draw(small_target())}
+    if mode == "default_bound" and case.get("bound") and draw(st.integers(0, 9)) < 3:
+        # a pre-match for a name that was declared bound: it is not a candidate for matching
+        nb = draw(st.sampled_from(case["bound"]))
+        case["pre_match"] = dict(case.get("pre_match", {}), **{nb: draw(small_target())})
     return case
 
 
@@ -276,6 +281,37 @@ def random_pair(draw):
     return case
 
 
+def backticked_text(e):
+    """The expression as text with every name in backticks (fully parenthesised), if dagrt's parser reads that back
+    as the same expression; else None (then the object is passed).  match() documents strings for the template,
+    the expression and the pre-match values."""
+    import pymbolic.primitives as p
+
+    def pr(x):
+        if isinstance(x, p.Variable):
+            return "`%s`" % x.name
+        if isinstance(x, p.Sum):
+            return "(" + " + ".join(pr(c) for c in x.children) + ")"
+        if isinstance(x, p.Product):
+            return "(" + " * ".join(pr(c) for c in x.children) + ")"
+        if isinstance(x, p.CallWithKwargs):
+            args = [pr(a) for a in x.parameters] + ["%s=%s" % (k, pr(v)) for k, v in x.kw_parameters.items()]
+            return "%s(%s)" % (pr(x.function), ", ".join(args))
+        if isinstance(x, p.Call):
+            return "%s(%s)" % (pr(x.function), ", ".join(pr(a) for a in x.parameters))
+        if isinstance(x, (int, float)) and not isinstance(x, bool):
+            return "(%r)" % x
+        raise ValueError(x)
+    # The text denotes e by construction (every operator application is parenthesised, every name quoted); how the
+    # parser groups a chain of sums does not matter to the value-based oracle.  (Validated once against the unchanged
+    # parser: all of 6000 generated templates and targets read back to an expression equal up to flattening.)  No
+    # filter through the parser here: a parser that misreads the text must show, not be bypassed.
+    try:
+        return pr(e)
+    except ValueError:
+        return None
+
+
 def run_match(case):
     from dagrt.expression import match
     kwargs = {}
@@ -283,8 +319,9 @@ def run_match(case):
         kwargs["free_variable_names"] = list(case["free"])
     if "bound" in case:
         kwargs["bound_variable_names"] = list(case["bound"])
+    as_text = (lambda e: backticked_text(e) or e) if case.get("strings") else (lambda e: e)
     if "pre_match" in case:
-        kwargs["pre_match"] = {n: T.to_pymbolic(v) for n, v in case["pre_match"].items()}
+        kwargs["pre_match"] = {n: as_text(T.to_pymbolic(v)) for n, v in case["pre_match"].items()}
     with warnings.catch_warnings():
         warnings.simplefilter("ignore")
         # keyword arguments of the two sides written in name order or reversed, independently
@@ -293,12 +330,25 @@ def run_match(case):
         T.set_kw_order(case.get("kw_reverse_target", False))
         tgt = T.to_pymbolic(case["target"])
         T.set_kw_order(False)
-        return match(tpl, tgt, **kwargs)
+        return match(as_text(tpl), as_text(tgt), **kwargs)
 
 
 def check_case(case):
     """Returns (message or None, info dict)."""
     info = {"matched": False}
+    if case.get("strings"):
+        # the documented string forms must behave like the objects they denote: same verdict (match / no match)
+        def verdict(c_):
+            try:
+                return ("match", run_match(c_))
+            except ValueError:
+                return ("no match", None)
+            except Exception as e:
+                return ("raised " + type(e).__name__, None)
+        vs, vo = verdict(case), verdict(dict(case, strings=False))
+        if vs[0] != vo[0]:
+            return ("match() gives '%s' when template, expression and pre-match values are passed as strings, '%s' when "
+                    "they are passed as the expressions those strings denote" % (vs[0], vo[0])), info
     try:
         sigma = run_match(case)
     except ValueError:
@@ -356,7 +406,7 @@ def check_case(case):
 
 
 def sig_of(msg):
-    for key in ("instead of ValueError", "non-free", "foreign", "non-symbol", "differs from the target",
+    for key in ("passed as strings", "instead of ValueError", "non-free", "foreign", "non-symbol", "differs from the target",
                 "missing from", "disagrees with the pre-match", "returned"):
         if key in msg:
             return key if key != "instead of ValueError" else msg.split(":")[0]
